@@ -471,6 +471,15 @@ func (b *backendPlaySessionHandler) handleAvailableCommands(p *packet.AvailableC
 }
 
 func filterNode(src brigodier.CommandNode, cmdSrc command.Source) brigodier.CommandNode {
+	return filterNodeSeen(src, cmdSrc, map[brigodier.CommandNode]brigodier.CommandNode{})
+}
+
+// filterNodeSeen remembers the copy of every node it has started on, so that a redirect
+// to the root or to an ancestor (a cycle) ends at that copy instead of recursing forever.
+func filterNodeSeen(src brigodier.CommandNode, cmdSrc command.Source, seen map[brigodier.CommandNode]brigodier.CommandNode) brigodier.CommandNode {
+	if dest, ok := seen[src]; ok {
+		return dest
+	}
 	var dest brigodier.CommandNode
 	_, ok := src.(*brigodier.RootCommandNode)
 	if ok {
@@ -481,13 +490,15 @@ func filterNode(src brigodier.CommandNode, cmdSrc command.Source) brigodier.Comm
 		}
 		builder := src.CreateBuilder().Requires(func(context.Context) bool { return true })
 		if src.Redirect() != nil {
-			builder.Redirect(filterNode(src.Redirect(), cmdSrc))
+			seen[src] = nil // a chain of redirects leading back here leads nowhere
+			builder.Redirect(filterNodeSeen(src.Redirect(), cmdSrc, seen))
 		}
 		dest = builder.Build()
 	}
+	seen[src] = dest
 
 	src.ChildrenOrdered().Range(func(_ string, sourceChild brigodier.CommandNode) bool {
-		destChild := filterNode(sourceChild, cmdSrc)
+		destChild := filterNodeSeen(sourceChild, cmdSrc, seen)
 		if destChild != nil {
 			dest.AddChild(destChild)
 		}
